@@ -246,7 +246,9 @@ func catchImplBlocking(c *core.Ctx, pkg string) {
 // exxProvenance: every call of the catch role passes the stage's context and
 // the error channel obtained from errch of the same F value (pipe) or made with capacity par (fork).
 func exxProvenance(c *core.Ctx, prop string, s *Stage) {
-	c.Doc("exx-provenance", 4, "catch is called with (ctx of the stage, the error, the stage's own error channel)")
+	if c.Rules["exx-provenance"] == nil {
+		c.Doc("exx-provenance", 2, "catch is called with (ctx of the stage, the error, the stage's own error channel)")
+	}
 	for _, pr := range procsOf(s) {
 		done := map[ssa.Instruction]bool{}
 		for _, p := range pr.an.AllPaths() {
@@ -264,6 +266,10 @@ func exxProvenance(c *core.Ctx, prop string, s *Stage) {
 					if m, _, args, isC := callParts(exx); isC && m == "errch" {
 						ok = ir.Same(args[0], recv)
 						why = "the error channel comes from errch of a different function value than the one whose catch is called"
+						if inst := instancesOf(pr); ok && (inst == nil || !(inst.IsConst() && inst.Aux == "1")) {
+							ok = false
+							why = fmt.Sprintf("the error channel comes from errch, whose capacity is chosen by the function kind (1 for fail-fast), but %s workers may each hand over one error with a plain send: the second failing worker blocks forever", short(inst))
+						}
 					} else if exx.Op == "mkchan" {
 						inst := instancesOf(pr)
 						ok = inst != nil && ir.Same(exx.Args[0], inst)
@@ -1057,14 +1063,30 @@ func waitGroupOrders(s *Stage, closer, sender *proc, k string) string {
 	if !ir.Same(add.A[1], inst) {
 		return fmt.Sprintf("wg.Add(%s) but %s sender instances are spawned", short(add.A[1]), short(inst))
 	}
-	if !add.Instr.Block().Dominates(sender.g.Spawn.Instr.Block()) {
+	if !instrBefore(add.Instr, sender.g.Spawn.Instr) {
 		return "wg.Add does not precede the go statement"
 	}
 	// the closer must be spawned after Add too (or be ordered) – Wait before Add would return early
 	if closer.g != nil && closer.g.Spawn != nil && closer.g.Parent == sender.g.Parent {
-		if !add.Instr.Block().Dominates(closer.g.Spawn.Instr.Block()) {
+		if !instrBefore(add.Instr, closer.g.Spawn.Instr) {
 			return "the closer may run wg.Wait before wg.Add"
 		}
 	}
 	return ""
+}
+
+// instrBefore: a is executed before b on every path reaching b (same function).
+func instrBefore(a, b ssa.Instruction) bool {
+	if a.Block() == b.Block() {
+		for _, in := range a.Block().Instrs {
+			if in == a {
+				return true
+			}
+			if in == b {
+				return false
+			}
+		}
+		return false
+	}
+	return a.Block().Dominates(b.Block())
 }
